@@ -12,6 +12,7 @@ static CoreT_& coreOf(FSM::Instance& i) { return static_cast<RootT&>(i).*get(Cor
 //------------------------------------------------------------------------------
 
 static bool loggerOf(FSM::Instance& i);
+static void requestedRegistry(std::string& o, void* instance);
 static void statusCodes(std::string& o, void* instance) {
 #ifdef HFSM2_ENABLE_PLANS
 	auto& pd = coreOf(*static_cast<FSM::Instance*>(instance)).planData;
@@ -33,6 +34,14 @@ template <int OC> struct OrthoDump {
 template <> struct OrthoDump<0> { template <typename R> static void go(std::string& o, R&) { o += "[]"; } };
 
 struct ParentInfo { int parent[N]; int prong[N]; bool isCompo[N]; int compo[N]; int ortho[N]; int width[N]; int region[N]; };
+
+static void requestedRegistry(std::string& o, void* instance) {
+	auto& reg = coreOf(*static_cast<FSM::Instance*>(instance)).registry;
+	constexpr int CC = FSM::Args::COMPO_COUNT, OC = FSM::Args::ORTHO_COUNT;
+	o += '['; jarr(o, CC, [&](int c) { jint(o, prong1(reg.compoRequested[c])); });
+	o += ','; jarr(o, CC, [&](int c) { jint(o, reg.compoRemains.get((hfsm2::Short) c) ? 1 : 0); });
+	o += ','; OrthoDump<OC>::go(o, reg); o += ']';
+}
 
 static void snapshot(std::string& o, FSM::Instance& fsm) {
 	CoreT_& core = coreOf(fsm);
